@@ -195,17 +195,21 @@ func appendEvents(path string, events []Event) error {
 		return err
 	}
 	defer file.Close()
+	// All events of one command go out in a single write: a process killed
+	// between two system calls has recorded either all of them or none.
+	var buf bytes.Buffer
 	for _, event := range events {
 		data, err := json.Marshal(event)
 		if err != nil {
 			return err
 		}
-		line := append(data, '\n')
-		if err := writeAll(file, line); err != nil {
-			return err
-		}
+		buf.Write(data)
+		buf.WriteByte('\n')
 	}
-	return nil
+	if buf.Len() == 0 {
+		return nil
+	}
+	return writeAll(file, buf.Bytes())
 }
 
 func writeEventsFile(path string, events []Event) error {
